@@ -86,6 +86,75 @@ def run(ctx):
                     {'api': api, 'pattern': p, 'flags': corr.flag_names(fv if api[0] == 'f' else gv), 'str': repr(rs or es), 'bytes': repr(rb or eb)})
             elif rs:
                 nontriv.add((p, api))
+    # the same under Windows rules and for the remaining entry points: glob.is_magic (drive and UNC prefixes written with
+    # escaped backslashes included), translate/match with FORCEWIN
+    wpats = ['c:\\\\', '\\\\\\\\server\\\\share', '\\\\\\\\?\\\\c:\\\\', '//server\\\\share', '//?/c:/', 'c:/a', 'c:', 'a', 'a*', '{a}', '{a,b}', '~', '~/a', 'a|b', '!a', '-a',
+             '\\a', 'a\\\\b', '[a]', 'a/b', 'a\\/b', '@(a)', '?', '\\*', 'c:\\\\a*', '//host/share/*', 'A\\\\B?']
+    wnames = ['a', 'c:/a', 'c:\\a', 'A/B1', 'a\\b', '//host/share/x', 'ab']
+    for p in wpats:
+        for fbase in (0, Gm.BRACE, Gm.SPLIT, Gm.EXTGLOB | Gm.NEGATE, Gm.GLOBTILDE, Gm.MINUSNEGATE | Gm.NEGATE | Gm.BRACE):
+            for plat in (Gm.FORCEWIN, Gm.FORCEUNIX):
+                fv = fbase | plat
+                calls = [('glob.is_magic', lambda P, N: Gm.is_magic(P, flags=fv)),
+                         ('fnmatch.is_magic', lambda P, N: Fm.is_magic(P, flags=(fv & ~Gm.GLOBTILDE))),
+                         ('glob.globmatch', lambda P, N: [Gm.globmatch(n, P, flags=fv & ~Gm.GLOBTILDE) for n in N]),
+                         ('glob.translate', lambda P, N: Gm.translate(P, flags=fv & ~Gm.GLOBTILDE)),
+                         ('fnmatch.fnmatch', lambda P, N: [Fm.fnmatch(n, P, flags=fv & ~Gm.GLOBTILDE) for n in N]),
+                         ('fnmatch.translate', lambda P, N: Fm.translate(P, flags=fv & ~Gm.GLOBTILDE)),
+                         ('glob.escape', lambda P, N: Gm.escape(P, unix=not (plat & Gm.FORCEWIN)))]
+                for api, fn in calls:
+                    evals += 1
+                    try:
+                        rs, es = fn(p, wnames), None
+                    except Exception as ex:
+                        rs, es = None, type(ex).__name__
+                    try:
+                        rb, eb = fn(e(p), e(wnames)), None
+                    except Exception as ex:
+                        rb, eb = None, type(ex).__name__
+                    if es != eb or (es is None and e(rs) != rb):
+                        ctx.counterexample('%s: bytes answer differs from the encoded str answer for pattern %r (flags %s)' % (api, p, corr.flag_names(fv)),
+                                           {'api': api, 'pattern': p, 'flags': corr.flag_names(fv), 'str': repr(rs or es), 'bytes': repr(rb or eb)})
+                    elif rs:
+                        nontriv.add((p, api, fv))
+    # `~` expansion (GLOBTILDE) - in inclusion and in exclusion patterns - on a home directory of our own
+    import tempfile as _tf, shutil as _sh
+    home = _tf.mkdtemp(prefix='c18home_')
+    old_home = os.environ.get('HOME')
+    try:
+        os.environ['HOME'] = home
+        for nm_ in ('keep.txt', 'skip.txt', 'skip2.txt', 'other.md'):
+            open(os.path.join(home, nm_), 'w').close()
+        os.mkdir(os.path.join(home, 'd'))
+        open(os.path.join(home, 'd', 'in.txt'), 'w').close()
+        tcases = [(['~/*.txt'], 0), (['~/*.txt', '!~/skip*'], Gm.NEGATE), (['~/*', '!~/*.txt'], Gm.NEGATE), (['~/**/*.txt', '!~/d/**'], Gm.NEGATE | Gm.GLOBSTAR),
+                  (['~/*.txt|!~/skip2*'], Gm.NEGATE | Gm.SPLIT), (['~/{keep,skip}.txt', '-~/skip.txt'], Gm.NEGATE | Gm.MINUSNEGATE | Gm.BRACE), (['!~/skip*'], Gm.NEGATE | Gm.NEGATEALL),
+                  (['~'], 0), (['~/'], Gm.MARK)]
+        for pl_, xf in tcases:
+            fv = Gm.GLOBTILDE | xf
+            evals += 1
+            try:
+                rs = Gm.glob(pl_, flags=fv, root_dir=home)
+                rb = Gm.glob(e(pl_), flags=fv, root_dir=e(home))
+                ms = [Gm.globmatch(os.path.join(home, n_), pl_, flags=fv | Gm.REALPATH) for n_ in ('keep.txt', 'skip.txt', 'd/in.txt', 'nothere')]
+                mb_ = [Gm.globmatch(e(os.path.join(home, n_)), e(pl_), flags=fv | Gm.REALPATH) for n_ in ('keep.txt', 'skip.txt', 'd/in.txt', 'nothere')]
+                fs_ = Gm.globfilter([os.path.join(home, n_) for n_ in ('keep.txt', 'skip.txt', 'd/in.txt')], pl_, flags=fv | Gm.REALPATH)
+                fb_ = Gm.globfilter([e(os.path.join(home, n_)) for n_ in ('keep.txt', 'skip.txt', 'd/in.txt')], e(pl_), flags=fv | Gm.REALPATH)
+            except Exception as ex:
+                ctx.counterexample('GLOBTILDE %r raised %s' % (pl_, type(ex).__name__), {'patterns': pl_, 'flags': corr.flag_names(fv)})
+                continue
+            if e(rs) != rb or ms != mb_ or e(fs_) != fb_:
+                ctx.counterexample('GLOBTILDE %r (%s): glob str %r / bytes %r; globmatch str %r / bytes %r; globfilter str %d / bytes %d results' % (
+                    pl_, corr.flag_names(fv), [x.replace(home, '~') for x in rs][:5], [x.decode().replace(home, '~') for x in rb][:5], ms, mb_, len(fs_), len(fb_)),
+                    {'patterns': pl_, 'flags': corr.flag_names(fv), 'home': 'keep.txt skip.txt skip2.txt other.md d/in.txt'})
+            elif rs:
+                nontriv.add((tuple(pl_), 'tilde'))
+    finally:
+        if old_home is None:
+            os.environ.pop('HOME', None)
+        else:
+            os.environ['HOME'] = old_home
+        _sh.rmtree(home, ignore_errors=True)
     # RAWCHARS escapes that denote a byte >= 0x80: one Latin-1 unit in both modes (never a multi-byte encoding)
     for v in list(range(0x80, 0x100, 7)) + [0xe9, 0xff, 0x80, 0xc3, 0xa9]:
         for form in ('\\x%02x' % v, '[\\x%02x]' % v, '[!\\x%02x]' % v, 'a\\%03o' % v, '[\\x%02x-\\xff]x' % v, '*\\x%02x?' % v):
